@@ -282,6 +282,25 @@ def scen_shared_args(rng):
     return {"parent": p, "ops": ops, "kind": "shared-args"}
 
 
+def scen_lint_clean(rng):
+    """lint-clean parent and child, every child input attached, child outputs feeding multi-input gates of the parent (a lint-clean
+    parent has no undriven buffer to drive): the result must pass lint (C20's clause for this producer); then sometimes a fill"""
+    p = gen_parent(rng, holes=0)
+    if rng.random() < 0.5:
+        p = lib.add_flop(rng, p, inst="pf", clk="pclk")
+    child = gen_child(rng, flop=rng.random() < 0.3, clean_io=rng.random() < 0.7)
+    ins = [n[0] for n in child["nodes"] if n[1] == "input"]
+    outs = [n[0] for n in child["nodes"] if n[2] and n[1] != "input"]
+    spec = [[o, [sel(rng, "gate")], rng.random() < 0.5] for o in outs if rng.random() < 0.5]
+    spec += [[i, [sel(rng, "anyd")], rng.random() < 0.5] for i in ins]
+    ops = [{"op": "sub", "sc": child, "name": "u0", "conns": spec, "strip": True}]
+    if p["bbs"] and rng.random() < 0.6:
+        ops.append({"op": "fill", "inst": "pf", "sc": flop_body(rng)})
+    if child["bbs"] and rng.random() < 0.6:
+        ops.append({"op": "fill", "inst": "u0_ff0", "sc": flop_body(rng)})
+    return {"parent": p, "ops": ops, "kind": "lint-clean"}
+
+
 def scen_reject(rng):
     """the rejection stream: each history contains at least one call that must raise ValueError"""
     p = gen_parent(rng)
@@ -348,7 +367,7 @@ def generate(rng, tier):
     out = []
     for _ in range(n):
         r = rng.random()
-        out.append(scen_sub(rng) if r < 0.22 else scen_shared_args(rng) if r < 0.30 else scen_sub_two_bbs(rng) if r < 0.36 else
+        out.append(scen_sub(rng) if r < 0.17 else scen_lint_clean(rng) if r < 0.23 else scen_shared_args(rng) if r < 0.30 else scen_sub_two_bbs(rng) if r < 0.36 else
                    scen_fill(rng) if r < 0.48 else
                    scen_fill_order(rng) if r < 0.64 else scen_strip(rng) if r < 0.74 else
                    scen_strip_suffix(rng) if r < 0.84 else scen_reject(rng))
@@ -367,7 +386,7 @@ def mutate_case(rng, case):
     _MUTATE_BUDGET[0] -= 1
     k = case.get("kind", "sub").split(":")[0]
     return {"sub": scen_sub, "fill": scen_fill, "strip": scen_strip, "strip-collide": scen_strip, "strip-suffix": scen_strip_suffix,
-            "fill-order": scen_fill_order, "sub-two-bbs": scen_sub_two_bbs, "shared-args": scen_shared_args, "reject": scen_reject}.get(k, scen_sub)(rng)
+            "fill-order": scen_fill_order, "sub-two-bbs": scen_sub_two_bbs, "shared-args": scen_shared_args, "lint-clean": scen_lint_clean, "reject": scen_reject}.get(k, scen_sub)(rng)
 
 
 # ---------------------------------------------------------------- implementation driver
